@@ -17,7 +17,8 @@
      - leaves: every fixed-width integer type, BOOLEAN, NULL round-trip.
      - records: for EVERY schema (a tree of SEQUENCE/SET/explicitly tagged
        records, any legal tags, any nesting, leaves INTEGER of the ten widths,
-       BOOLEAN, NULL, OBJECT IDENTIFIER, BIT STRING of at most 999 data octets) and every value of it, encoding in a mode and decoding
+       BOOLEAN, NULL, OBJECT IDENTIFIER, BIT STRING of at most 999 data octets,
+       arbitrary-size INTEGER through Integer::take_from and Unsigned::take_from) and every value of it, encoding in a mode and decoding
        the octets with the schema's typed readers in the same mode - or DER
        output in BER mode - yields the value, consumes exactly the octets and
        leaves the context unchanged, at any position and under any limit
@@ -31,14 +32,21 @@
        of a definite parent, the end-of-contents of an indefinite one or the
        end of the input (C04_optional_schema_roundtrip_in_context,
        C04_optional_schema_roundtrip).
-   PARTIAL: CHOICE fields and the octet/character string leaves are not in the schema
-   datatype; they are covered by the leaf theorems, by C04_typed_field_read,
+     - CHOICE: a value of a CHOICE type whose alternatives (any schemas) carry
+       pairwise distinct tags, written as the chosen alternative and read by
+       trying the alternatives in order with expected-tag optional reads, comes
+       back as the same alternative with the same value, at any position and
+       under any limit (C04_choice_roundtrip).
+   PARTIAL: CHOICE is proved as a reader of its own, not as a constructor of the schema
+   datatype (a CHOICE nested inside a record field composes through
+   C04_typed_field_read only informally); the octet/character string leaves are not in the
+   schema datatype; they are covered by the leaf theorems, by C04_typed_field_read,
    and as a whole by c04.roundtrip (random typed records through the real
    combinators).  Captured / OctetString / wrapped encoders
    are outside `structural`. *)
 Require Import BV.Model.Base BV.Model.SrcB BV.Model.Twos BV.Model.Int.
 Require Import BV.Model.Length BV.Model.Tag BV.Model.Content BV.Model.Encode BV.Model.Prog.
-Require Import BV.Proofs.SrcBP BV.Proofs.IntP BV.Proofs.IntEncP BV.Proofs.WinP BV.Proofs.GrammarP BV.Proofs.EncGrammarP BV.Proofs.TypedP BV.Proofs.SchemaP BV.Proofs.Schema2P.
+Require Import BV.Proofs.SrcBP BV.Proofs.IntP BV.Proofs.IntEncP BV.Proofs.WinP BV.Proofs.GrammarP BV.Proofs.EncGrammarP BV.Proofs.TypedP BV.Proofs.SchemaP BV.Proofs.Schema2P BV.Proofs.ChoiceP.
 
 Theorem C04_encoders_write_the_grammar : forall e m d,
   structural e -> enc_write m e = Ok d -> encs m (tlvs_of e) d.
@@ -130,6 +138,31 @@ Example C04_optional_schema_ex :
   decode_src Der (fun c => mandatory (dec2 (depth2 s) s c)) (pure_src [48; 8; 2; 2; 254; 212; 49; 2; 5; 0] None) = (Ok v, pure_src [] None).
 Proof. exact schema2_example. Qed.
 
+Theorem C04_choice_roundtrip : forall alts i a v e m d,
+  nth_error alts i = Some a -> Forall ok2 alts -> NoDup (map tag_of alts) ->
+  enc2 a v = Some e -> enc_write m e = Ok d ->
+  forall fuel c rest l, Forall (fun x => (depth2 x <= fuel)%nat) alts -> (cmd c = m \/ (m = Der /\ cmd c = Ber)) ->
+    octets_ok (d ++ rest) = true -> lim_ge l (len d) -> ctx_ok c l ->
+    dec_choice fuel alts c (mkSrc (d ++ rest) l None) = (Ok (Some (i, v), c), mkSrc rest (lim_sub l (len d)) None).
+Proof. exact choice_roundtrip. Qed.
+
+Example C04_choice_ex :
+  let alts := [S2Leaf T_BOOLEAN LBool; S2Leaf T_INTEGER (LInt 2); S2Seq T_SEQUENCE [(false, S2Leaf T_NULL LNull)]] in
+  fst (dec_choice 5 alts (mkCons Unbounded Der) (pure_src [48; 2; 5; 0; 1; 1; 255] None)) =
+    Ok (Some (2%nat, VSeq [VNull]), mkCons Unbounded Der) /\
+  fst (dec_choice 5 alts (mkCons Unbounded Der) (pure_src [2; 1; 7] None)) = Ok (Some (1%nat, VInt 7), mkCons Unbounded Der) /\
+  fst (dec_choice 5 alts (mkCons Unbounded Der) (pure_src [4; 0] None)) = Ok (None, mkCons Unbounded Der).
+Proof. exact choice_example. Qed.
+
+Example C04_arbitrary_size_integer_fields_ex :
+  let s := S2Seq T_SEQUENCE [(false, S2Leaf T_INTEGER LInteger); (true, S2Leaf (128, 0, 0, 0) LUnsigned)] in
+  let v := VSeq [VBytes [128; 0; 0; 0; 0; 0; 0; 0; 0]; VOpt (Some (VBytes [1; 0; 0; 0; 0; 0; 0; 0; 0]))] in
+  ok2 s /\ exists e, enc2 s v = Some e /\
+    enc_write Der e = Ok [48; 22; 2; 9; 128; 0; 0; 0; 0; 0; 0; 0; 0; 128; 9; 1; 0; 0; 0; 0; 0; 0; 0; 0] /\
+  decode_src Der (fun c => mandatory (dec2 (depth2 s) s c))
+    (pure_src [48; 22; 2; 9; 128; 0; 0; 0; 0; 0; 0; 0; 0; 128; 9; 1; 0; 0; 0; 0; 0; 0; 0; 0] None) = (Ok v, pure_src [] None).
+Proof. exact schema2_example_integers. Qed.
+
 Example C04_ex : enc_int 3 (-129)%Z = [255; 127] /\ enc_int 9 (2^64)%Z = [1;0;0;0;0;0;0;0;0].
 Proof. split; vm_compute; reflexivity. Qed.
 
@@ -146,3 +179,4 @@ Print Assumptions C04_schema_roundtrip_in_context.
 Print Assumptions C04_schema_roundtrip.
 Print Assumptions C04_optional_schema_roundtrip_in_context.
 Print Assumptions C04_optional_schema_roundtrip.
+Print Assumptions C04_choice_roundtrip.
